@@ -276,14 +276,14 @@ Proof.
   apply get_after_commit_seq0_lem; assumption.
 Qed.
 
-Lemma chain_log_correct_lem db b t old ops pos_of :
+Lemma chain_log_correct_lem db b t old ops startv pos_of :
   sorted old ->
   is_finalized (d_fin db) (fst (b_end b)) = false ->
   has_rid db (b_end b) = false ->
   follows_v (b_start b) (b_end b) = true ->
-  b_log b = make_internal (annotate pos_of old ops) ->
+  b_log b = make_internal (annotate startv pos_of old ops) ->
   commit_writelog (run_batch old ops) <> [] ->
-  (forall k v p, In (k, Some (v, p)) (annotate pos_of old ops) ->
+  (forall k v p, In (k, Some (v, p)) (annotate startv pos_of old ops) ->
      exists n, view_at (view_seq0 db b) (b_root b) (fst (b_end b)) p = Some n /\
                leaf_from_db n = (k, Some v)) ->
   Forall (later_call (fst (b_end b))) t ->
@@ -291,9 +291,9 @@ Lemma chain_log_correct_lem db b t old ops pos_of :
              apply_writelog old wl = contents (run_batch old ops).
 Proof.
   intros Hs Hfin Hhas Hfol Hlog Hne Hok Ht.
-  exists (strip (annotate pos_of old ops)). split.
+  exists (strip (annotate startv pos_of old ops)). split.
   - apply chain_log_served_lem; try assumption.
-    intros E. apply Hne. rewrite <- (strip_annotate pos_of old ops), E. reflexivity.
+    intros E. apply Hne. rewrite <- (strip_annotate startv pos_of old ops), E. reflexivity.
   - rewrite strip_annotate. apply writelog_correct_lem. exact Hs.
 Qed.
 
